@@ -2,7 +2,7 @@
    functions statement by statement, and its interpreter.  Anything the translator did not
    understand is [DOther] / [DUnknown]: the interpreter then yields [Stuck], so no theorem about the
    translated code can hold by ignoring a statement. *)
-From Coq Require Import String List Bool.
+From Coq Require Import Ascii String List Bool.
 Import ListNotations.
 Open Scope string_scope.
 
@@ -19,6 +19,7 @@ Inductive dstmt :=
 | DSwitch (subject : string) (cases : list (list string * list dstmt))
 | DReturn (v : string)
 | DCall (src : string)                (* a call made for its effect: recorded, in order *)
+| DRange (v lst : string) (body : list dstmt)   (* for _, v := range lst { body } *)
 | DOther (kind : string).
 
 (* the inputs of a run: which capabilities the server has, which equalities between an input and
@@ -30,9 +31,17 @@ Fixpoint sget (s : store) (k : string) : option string :=
 (* [e_eqs] answers equalities that depend on what the run has assigned so far (e.g. `current ==
    target` after `current = ...`): Some (Some b) = decided, Some None = evaluating it would panic
    in Go (the run is stuck), None = not store-dependent, ask [e_eq] *)
-Record denv := mkEnv { e_has : string -> bool; e_eq : string -> string -> bool; e_field : string -> string;
-                       e_atom : string -> option bool;
-                       e_eqs : store -> string -> string -> option (option bool) }.
+(* [e_len] is the length of a slice that is ranged over; inside the loop the loop variable is bound
+   in the store to its INDEX, written in unary ([unary i]); [e_atoms] answers boolean calls that
+   depend on the store (on the loop variable): same convention as [e_eqs] *)
+Record denv := mkEnvX { e_has : string -> bool; e_eq : string -> string -> bool; e_field : string -> string;
+                        e_atom : string -> option bool;
+                        e_eqs : store -> string -> string -> option (option bool);
+                        e_len : string -> nat;
+                        e_atoms : store -> string -> option (option bool) }.
+Definition mkEnv a b c d e : denv := mkEnvX a b c d e (fun _ => O) (fun _ _ => None).
+
+Fixpoint unary (i : nat) : string := match i with O => "" | S j => String "I"%char (unary j) end.
 
 Inductive dres := Running (s : store) | Returned (s : store) (v : string) | Stuck.
 
@@ -40,7 +49,7 @@ Fixpoint eval (env : denv) (s : store) (e : dexpr) : option bool :=
   match e with
   | DHas c => Some (e_has env c)
   | DEq a b => match e_eqs env s a b with Some r => r | None => Some (e_eq env a b) end
-  | DAtom a => e_atom env a
+  | DAtom a => match e_atoms env s a with Some r => r | None => e_atom env a end
   | DNot x => option_map negb (eval env s x)
   | DAnd a b => match eval env s a, eval env s b with Some x, Some y => Some (x && y) | _, _ => None end
   | DOr a b => match eval env s a, eval env s b with Some x, Some y => Some (x || y) | _, _ => None end
@@ -51,6 +60,17 @@ Fixpoint pick_case (v : string) (cases : list (list string * list dstmt)) : list
   match cases with
   | [] => []
   | (labels, body) :: t => if existsb (String.eqb v) labels then body else pick_case v t
+  end.
+
+(* the iterations of a range loop: [body] runs the loop body from a store; a return (or getting
+   stuck) inside the body ends the loop *)
+Fixpoint range_loop (body : store -> dres) (v : string) (k i : nat) (s : store) : dres :=
+  match k with
+  | O => Running s
+  | S k' => match body ((v, unary i) :: s) with
+            | Running s1 => range_loop body v k' (S i) s1
+            | x => x
+            end
   end.
 
 Fixpoint exec (fuel : nat) (env : denv) (l : list dstmt) (s : store) : dres :=
@@ -74,6 +94,7 @@ Fixpoint exec (fuel : nat) (env : denv) (l : list dstmt) (s : store) : dres :=
               continue (exec f env (pick_case v cases) s)
           | DReturn v => Returned s v
           | DCall c => exec f env rest (("!call", c) :: s)
+          | DRange v lst body => continue (range_loop (exec f env body) v (e_len env lst) 0 s)
           | DOther _ => Stuck
           end
       end
